@@ -498,7 +498,10 @@ func init() {
 		sec, ra := []byte("s"), make([]byte, 16)
 		f.list("encUserPassword", encLens(func(v []byte) bool { _, err := radius.NewUserPassword(v, sec, ra); return err == nil }))
 		f.list("acceptUserPassword", acceptLens(func(a []byte) bool { _, err := radius.UserPassword(a, sec, ra); return err == nil }))
-		f.list("encTunnelPassword", encLens(func(v []byte) bool { _, err := radius.NewTunnelPassword(v, []byte{0x80, 1}, sec, ra); return err == nil }))
+		f.list("encTunnelPassword", encLens(func(v []byte) bool {
+			_, err := radius.NewTunnelPassword(v, []byte{0x80, 1}, sec, ra)
+			return err == nil
+		}))
 		for n := 0; n <= 300; n++ {
 			f.addCase("encUserPassword", n, "C04", "newup", hx(make([]byte, n)), "73", hx(ra))
 			f.addCase("acceptUserPassword", n, "C04", "up", hx(make([]byte, n)), "73", hx(ra))
